@@ -615,8 +615,11 @@ def wrappers(ctx):
     # Ref evaluates the bound sub-spec on the same target
     u = ctx.unit('core.Ref.glomit')
     evs = evaluator_calls(p, u)
-    ok = len(evs) == 1 and is_name(evs[0].args[0], u.params[1]) and is_name(evs[0].args[2], u.params[2])
-    ctx.ob(ok, u, 'Ref evaluates the referenced spec on the same target: %s' % [norm(e) for e in evs])
+    rcfg = ctx.cfg(u)
+    ens = [rcfg.node_containing(e) for e in evs]
+    ok = len(evs) >= 1 and all(is_name(e.args[0], u.params[1]) and is_name(e.args[2], u.params[2]) for e in evs) \
+        and not any(a is not b and rcfg.find_path(a, {b}) is not None for a in ens for b in ens)
+    ctx.ob(ok, u, 'Ref evaluates the referenced spec on the same target, once: %s' % [norm(e) for e in evs])
     # Invoke: func(*all_args, **all_kwargs) with parts evaluated in order
     u = ctx.unit('core.Invoke.glomit')
     r = [n for n in u.own_nodes() if isinstance(n, ast.Return)]
